@@ -56,3 +56,15 @@ def nochange_sound(E, rd, new_ret, old_ret):
     p = E.I.to_u(E.call(INC + ":Diff.tree_primal", rd))
     noleaves = E.ctx.fn("has_no_leaves", U, E.z3.BoolSort())(p)
     return E.Implies(E.And(T.all_nochange(rd), E.Not(noleaves)), E.eq(new_ret, old_ret))
+
+
+def fld(E, o, name):
+    """field of a repository object; an unrelated fresh opaque value when `o` is not such an object (so that a clause
+    about the field is refuted instead of crashing the checker)"""
+    if isinstance(o, Obj) and name in o.fields:
+        return o.fields[name]
+    return E.opaque("missing_field_" + name)
+
+
+def is_obj(o, cls_name):
+    return isinstance(o, Obj) and o.cls.name == cls_name
